@@ -1473,3 +1473,49 @@ func c13r16(rc *core.RC) {
 		rc.Unknown(fn+"/memo", fd.Pos(), "no map of linked bodies (element type CompiledCode) found")
 	}
 }
+
+// ---- C13.R17 the text of a recorded map key is found without guessing where the colour ends ----
+
+// At OpMapEnd the members of a map are ordered by the key strings they spell. What is recorded for a key is what was
+// written for it: under Colorize that is the colour format's header, the quoted text (or, for integer keys, a quote,
+// the header, the digits, the footer and a quote) and the footer. mapKeyText finds the text by searching the recorded
+// bytes for the first quote. A colour format is caller data; a header that holds a quote (`<span class="s">`) makes
+// every key of the map spell the same text (class=), the comparison says "equal" for all pairs and the members come
+// out in the iteration order of the map: another order on every call, and another document than without colour.
+// Obligation: the function that delimits the text is told where the colour header ends (a parameter for the format
+// or its length); a search for the first quote over the whole recorded key is reported.
+func c13r17(rc *core.RC) {
+	p := rc.P
+	fd := p.Func("encoder", "mapKeyText")
+	if fd == nil || fd.Body == nil {
+		rc.Unknown("encoder.mapKeyText", token.NoPos, "function not found")
+		return
+	}
+	info := p.Info(fd)
+	rc.Touch("encoder.mapKeyText")
+	nparams := 0
+	var rec types.Object
+	for _, f := range fd.Type.Params.List {
+		for _, nm := range f.Names {
+			nparams++
+			if o := info.Defs[nm]; o != nil && o.Type().String() == "[]byte" && rec == nil {
+				rec = o
+			}
+		}
+	}
+	search := false
+	ast.Inspect(fd.Body, func(m ast.Node) bool {
+		c, ok := m.(*ast.CallExpr)
+		if !ok || core.CalleeName(info, c) != "bytes.IndexByte" || len(c.Args) != 2 {
+			return true
+		}
+		if core.ObjOf(info, c.Args[0]) != rec {
+			return true
+		}
+		if v, isC := core.ConstInt(info, c.Args[1]); isC && v == '"' {
+			search = true
+		}
+		return true
+	})
+	rc.Check(!(search && nparams == 1), "encoder.mapKeyText/opening-quote-not-guessed", fd.Pos(), "the text of a recorded key is taken to begin behind the first quote of the recorded bytes, which begin with the colour format's header under Colorize: a format whose header holds a quote makes all keys of a map compare equal, and the members are written in iteration order")
+}
